@@ -121,8 +121,8 @@ def run(ctx):
             if 'violation' in r:
                 v = r['violation']
                 sig = {'kind': v['kind']}
-                if 'loop_infinite' in v:
-                    sig['loop_infinite'] = v['loop_infinite']
+                if v['kind'] == 'bound-ignores-failing-dependency':
+                    sig['ancestor_always_fails'] = v.get('ancestor_always_fails')
                 ctx.violation(sig, f"{v['kind']} (variable {v.get('variable')}) in loop `{code[:200]}`",
                               {'loop': code, 'detail': v, 'results': obs['results']})
             elif not r['ok'].get('supported', True):
